@@ -7,8 +7,6 @@ import (
 	"sync/atomic"
 	"time"
 
-	clocktesting "k8s.io/utils/clock/testing"
-
 	"github.com/dapr/kit/events/batcher"
 )
 
@@ -60,13 +58,10 @@ func runC10(s *sess) map[string]any {
 	rounds := s.rounds(1500)
 	done := 0
 	t0 := time.Date(2024, 1, 1, 0, 0, 0, 0, time.UTC)
-	watchClock, stopNudger := nudger()
-	defer stopNudger()
 	for round := 0; round < rounds && s.more(); round++ {
 		var g, readers group
 		variant := round + s.seed
-		clk := clocktesting.NewFakeClock(t0)
-		watchClock(clk)
+		clk := newNBClock(t0) // timers that never block the clock and fire at once when already due (nbclock_test.go)
 		b := batcher.New[int, kval](10 * time.Millisecond)
 		b.WithClock(clk)
 
